@@ -76,7 +76,12 @@ def stmt_lines(rng, src, helpers, indent, depth, tmp):
     r = rng.random()
     if depth <= 0 or r < .3:
         c = rng.random()
-        if c < .3:
+        if c < .06:
+            # a source line that talks about importing pyteal (the frame filter recognises pyteal's own import lines by their text)
+            src.add(pre + "pt.Pop(%s),  # TODO: import pyteal constants instead of this literal" % src.int_marker())
+        elif c < .09:
+            src.add(pre + "pt.Pop(__import__('pyteal').Int(%s)),  # from pyteal import Int" % src.int_marker()[7:-1])
+        elif c < .3:
             src.add(pre + "pt.Pop(%s)," % src.int_marker())
         elif c < .5:
             src.add(pre + "pt.Log(%s)," % src.bytes_marker())
